@@ -85,10 +85,10 @@ type Pipeline struct {
 	Syncs   int
 }
 
-func (o *Options) CfgDir() string  { return filepath.Join(o.Dir, "etc/haproxy") }
-func (o *Options) MapsDir() string { return filepath.Join(o.Dir, "etc/haproxy/maps") }
-func (o *Options) RunDir() string  { return filepath.Join(o.Dir, "var/run/haproxy") }
-func (o *Options) AdminSocket() string { return filepath.Join(o.RunDir(), "admin.sock") }
+func (o *Options) CfgDir() string       { return filepath.Join(o.Dir, "etc/haproxy") }
+func (o *Options) MapsDir() string      { return filepath.Join(o.Dir, "etc/haproxy/maps") }
+func (o *Options) RunDir() string       { return filepath.Join(o.Dir, "var/run/haproxy") }
+func (o *Options) AdminSocket() string  { return filepath.Join(o.RunDir(), "admin.sock") }
 func (o *Options) MasterSocket() string { return filepath.Join(o.RunDir(), "master.sock") }
 
 // Prepare creates the directory layout under Dir.
